@@ -598,7 +598,13 @@ pub fn run_check(check: &dyn Check, tier: Tier, seed: u64, limit: Option<u64>) -
     }
 
     let wall = t0.elapsed().as_secs_f64();
-    let evaluations = m.cases.len() as u64 - discards;
+    let cases_run = m.cases.len() as u64 - discards;
+    // a check whose cases fan out (C17: one scenario = many injected faults) reports the
+    // number of judged executions itself
+    let evaluations = match counters.remove("__evaluations") {
+        Some(n) if n > 0 => n,
+        _ => cases_run,
+    };
     let per_hour = |n: u64| if wall > 0.0 { (n as f64 / wall * 3600.0) as u64 } else { 0 };
     let reach_counts: BTreeMap<String, usize> = reach.iter().map(|(k, v)| (k.clone(), v.len())).collect();
     let evidence = json!({
@@ -614,12 +620,13 @@ pub fn run_check(check: &dyn Check, tier: Tier, seed: u64, limit: Option<u64>) -
             "rule": check.rule(),
             "samples": samples,
             "exhaustive": false,
+            "cases": cases_run,
             "cases_discarded": discards,
             "discard_reasons": discard_reasons,
             "cases_with_violation": n_viol_cases,
             "simulated_processes": m.procs,
             "simulated_processes_per_hour": per_hour(m.procs),
-            "seeds_per_hour": per_hour(evaluations),
+            "seeds_per_hour": per_hour(cases_run),
             "simulated_time_covered_s": (m.sim_ns / 1_000_000) as f64 / 1000.0,
             "faults": { "planned": m.faults_planned, "fired": m.faults_fired },
             "reach": reach_counts,
@@ -650,7 +657,7 @@ pub fn run_check(check: &dyn Check, tier: Tier, seed: u64, limit: Option<u64>) -
 
     println!(
         "cases={} discarded={} processes={} wall={:.1}s distinct_nontrivial={} reach={:?}",
-        evaluations, discards, m.procs, wall, tags.len(), reach_counts
+        cases_run, discards, m.procs, wall, tags.len(), reach_counts
     );
     for (sig, (n, what)) in &known_hits {
         println!("KNOWN-FINDING: property={} {} [{}; {} cases]", check.id(), what, sig, n);
